@@ -376,6 +376,8 @@ def run(ctx):
                                   if k.startswith("CD") and "_" in k)))
     nmod = 0
     for sname, keys in scen:
+        if not [k for k in keys if k.startswith(("CDELT", "CD"))]:
+            continue            # no pixel scale at all: compress refuses
         h0 = {k: sp.Symbol("h_" + k, real=True)
               for k in dict.fromkeys(base + list(keys))}
         try:
@@ -628,8 +630,15 @@ def r9_arithmetic(ctx, prog, comp, exp):
              "written exactly when a name is given, overwriting")
     # -- argument test ------------------------------------------------------
     fpar = comp.params[1]
-    guards = [st for st in comp.node.body if isinstance(st, ast.If) and
-              fpar in names_in(st.test) and st.body and
+    lead = []
+    for st in comp.node.body:
+        if isinstance(st, ast.Expr) and isinstance(st.value, ast.Constant):
+            continue
+        if isinstance(st, ast.If):
+            lead.append(st)
+            continue
+        break                   # the argument tests come first
+    guards = [st for st in lead if fpar in names_in(st.test) and st.body and
               isinstance(st.body[-1], (ast.Return, ast.Raise))]
     if not guards:
         raise AnalysisError("C15-R9: argument test of compress")
